@@ -224,6 +224,21 @@ def print_assumptions(rel_v, timeout=600):
     return True, res, p.stdout[-2000:]
 
 
+def purge_stale():
+    """make -k leaves the previous .vo of a file that no longer compiles (or whose dependencies do not):
+    remove them, so that nothing evaluated afterwards runs a compiled model of some earlier source"""
+    memo = {}
+    for f in coq_files():
+        rel = os.path.relpath(os.path.join(COQ, f), TH)
+        if not vo_ok(rel, memo):
+            base = os.path.join(TH, rel)[:-2]
+            for ext in (".vo", ".vos", ".vok", ".glob"):
+                try:
+                    os.remove(base + ext)
+                except FileNotFoundError:
+                    pass
+
+
 def build(verbose=False):
     """regenerate + make under the lock. returns dict(gen=..., rc=..., log=..., wall=...)"""
     t0 = time.time()
@@ -231,6 +246,8 @@ def build(verbose=False):
         gen = regenerate()
         write_coqproject()
         rc, log = make()
+        if rc != 0:
+            purge_stale()
     if verbose:
         print(log[-3000:])
     return dict(gen=gen, rc=rc, log=log, wall=time.time() - t0)
